@@ -288,6 +288,10 @@ func (k Keeper) InitateGaugesForDuration(ctx sdk.Context, triggerDuration time.D
 			receivedAmount, err := k.liquidityKeeper.TransferFundsForSwapFeeDistribution(ctx, gauge.AppId, poolID)
 			if err != nil {
 				logger.Info(fmt.Sprintf("error occurred while swap fee fund transfer, err : %s", err))
+				// the distribution above has been paid out already: its bookkeeping must be kept, otherwise the
+				// same deposit is paid again in the next epoch out of the other gauges' funds
+				gauge.TriggeredCount = ongoingEpochCount
+				k.SetGauge(ctx, gauge)
 				continue
 			}
 			// in case of swap fee distribution denom change in params
